@@ -480,9 +480,9 @@ PLANS = {
                 'exact results are outside the property. Built twice (-O1, -O2 -ffp-contract=off). non-trivial = all',
         'assumptions': ['the relative-error bounds for all inputs are NOT a theorem (DESIGN section 6 C10): they are enforced per case by the acceptance predicate'],
         'streams': [{'name': 'dd_qd_arith', 'driver': 'dd_all', 'what': 'dd and qd arithmetic, -O1',
-                     'runs': {'quick': [dict(args=['--mode', 'rnd', '--count', '600'], shards=16)], 'thorough': [dict(args=['--mode', 'rnd', '--count', '20000'], shards=16)]}},
+                     'timeout': 6000, 'runs': {'quick': [dict(args=['--mode', 'rnd', '--count', '600'], shards=16)], 'thorough': [dict(args=['--mode', 'rnd', '--count', '12000'], shards=16)]}},
                     {'name': 'dd_qd_arith_o2', 'driver': 'dd_o2', 'what': 'dd and qd arithmetic, -O2 -ffp-contract=off',
-                     'runs': {'quick': [dict(args=['--mode', 'rnd', '--count', '300'], shards=16)], 'thorough': [dict(args=['--mode', 'rnd', '--count', '10000'], shards=16)]}}],
+                     'timeout': 6000, 'runs': {'quick': [dict(args=['--mode', 'rnd', '--count', '300'], shards=16)], 'thorough': [dict(args=['--mode', 'rnd', '--count', '6000'], shards=16)]}}],
     },
     'C13': {
         'level': 'proof', 'coq': 'Properties_C13', 'pregen': ['gen_tables.py'],
@@ -494,7 +494,7 @@ PLANS = {
         'streams': [{'name': 'eft_double', 'driver': 'eft_all', 'what': 'double EFTs, -O1',
                      'runs': {'quick': [dict(args=['--mode', 'rnd', '--count', '800'], shards=16)], 'thorough': [dict(args=['--mode', 'rnd', '--count', '40000'], shards=16)]}},
                     {'name': 'eft_double_o2', 'driver': 'eft_o2', 'what': 'double EFTs, -O2 -ffp-contract=off',
-                     'runs': {'quick': [dict(args=['--mode', 'rnd', '--count', '600'], shards=16)], 'thorough': [dict(args=['--mode', 'rnd', '--count', '20000'], shards=16)]}},
+                     'timeout': 6000, 'runs': {'quick': [dict(args=['--mode', 'rnd', '--count', '600'], shards=16)], 'thorough': [dict(args=['--mode', 'rnd', '--count', '12000'], shards=16)]}},
                     {'name': 'eft_cfloat', 'driver': 'eft_all', 'what': 'generic twoSum on cfloat types', 'exhaustive': {'quick': False, 'thorough': False},
                      'runs': {'quick': [dict(args=['--mode', 'cfloat', '--count', '20000'], shards=4)], 'thorough': [dict(args=['--mode', 'cfloat', '--count', '400000'], shards=4)]}}],
     },
